@@ -56,6 +56,7 @@ type RetryOpts struct {
 	SampleAfterMs       int    `json:"sampleAfterMs,omitempty"`
 	DisconnectAt        string `json:"disconnectAt,omitempty"`
 	Hammer              bool   `json:"hammer,omitempty"`              // background goroutines keep calling Ping, Stats, Client, Handle (race-detector runs)
+	HammerSleepUs       int    `json:"hammerSleepUs,omitempty"`       // pause between two calls of a hammer goroutine (default 50)
 	ReuseMessage        bool   `json:"reuseMessage,omitempty"`        // the application re-uses one Message value for its publishes (resetting ID, payload, QoS; not Dup)
 	EpilogueLoseSession bool   `json:"epilogueLoseSession,omitempty"` // after quiescence: broker restart (peer close + session lost), settle again
 	NoReestablish       bool   `json:"noReestablish,omitempty"`       // the scenario ends without a healthy connection on purpose
@@ -215,7 +216,11 @@ func runRetry(sc *RetryScenario) *RetryResult {
 					case 2:
 						cli.Handle(mqtt.HandlerFunc(func(*mqtt.Message) {}))
 					}
-					time.Sleep(50 * time.Microsecond)
+					hs := sc.Opts.HammerSleepUs
+					if hs == 0 {
+						hs = 50
+					}
+					time.Sleep(time.Duration(hs) * time.Microsecond)
 				}
 			}()
 		}
@@ -364,7 +369,8 @@ func runRetry(sc *RetryScenario) *RetryResult {
 			select {
 			case <-connDone:
 			case <-time.After(time.Until(deadline)):
-				unreached = append(unreached, fmt.Sprintf("%d:%s", i, at))
+				// not an infeasible timing pattern: Connect itself did not return although the broker is reachable
+				info["connectStuck"] = true
 			}
 		case isGateLoc(at):
 			startConnect()
